@@ -38,6 +38,8 @@ type C04Node struct {
 	MK          map[C04Key]*C04Leaf    `valid:"required|m_mk"`
 	PP          **C04Leaf              `valid:"exist"`
 	Both        *C04Leaf               `valid:"required,exist"`
+	ByVal       C04Leaf                `valid:"exist"` // a sub-object held by value: skipped only when it IS the zero value
+	ByValReq    C04Leaf                `valid:"required|m_byvalreq"`
 	DecoyV      C04Leaf                // no marker: never validated
 	DecoyP      *C04Leaf               `json:"decoy"`
 	DecoyS      []C04Leaf              `json:"decoys"`
@@ -85,6 +87,10 @@ type C04Leaf struct {
 
 func c04Leaf(rng *rand.Rand) C04Leaf {
 	l := C04Leaf{}
+	if rng.Intn(9) == 0 {
+		// not the zero value, although every exported field is empty: a sub-object like any other populated one
+		return C04Leaf{z: "set"}
+	}
 	if rng.Intn(3) != 0 {
 		l.X = "x"
 	}
@@ -185,6 +191,12 @@ func c04Node(rng *rand.Rand, depth int) *C04Node {
 		n.PP = &p
 	}
 	n.Both = c04LeafP(rng)
+	if rng.Intn(2) == 0 {
+		n.ByVal = c04Leaf(rng)
+	}
+	if rng.Intn(3) != 0 {
+		n.ByValReq = c04Leaf(rng)
+	}
 	// decoys: all of them would fail if visited
 	n.DecoyV = C04Leaf{Y: 9}
 	n.DecoyP = &C04Leaf{Y: 9}
